@@ -128,7 +128,10 @@ def xUnlockChunk := 70
 /-! ### flags -/
 
 /-- `commit.Next()` is called between `slock.Lock(chunk)` and `slock.Unlock(chunk)` in `rangeWrite` -/
-def idInsideLatch : Bool := between Txn_rangeWrite (isCall nSLock) (isCall nSUnlock) (isCall nNext)
+def idInsideLatch : Bool := between Txn_rangeWrite (isCall nSLock) (isCall nSUnlock) (isCall nNext) &&
+  -- … unconditionally, once per latch section: same nesting depth as the `Lock` call (not under an `if`)
+  cnt Txn_rangeWrite (isCall nNext) == 1 &&
+  ((Txn_rangeWrite.find? (isCall nNext)).map (·.1) == (Txn_rangeWrite.find? (isCall nSLock)).map (·.1))
 
 /-- `commits[chunk] = id` inside the latch -/
 def setLastInsideLatch : Bool := between Txn_rangeWrite (isCall nSLock) (isCall nSUnlock) (isAssign nCommits)
